@@ -932,15 +932,16 @@ impl Gen {
             return format!("st annot {} {} {}", id, target, data.join(" ")).trim_end().to_string();
         }
         match self.rng.below(10) {
-            0..=3 => { let a = if self.rng.chance(20) { format!("#{}", self.rng.below(self.nann + 1)) } else { self.pick_ann() }; format!("st rmann {}", a) }
+            // by handle, by public identifier, or by the temporary identifier of the slot (`!A3`)
+            0..=3 => { let a = if self.rng.chance(20) { format!("#{}", self.rng.below(self.nann + 1)) } else if self.rng.chance(15) { format!("!A{}", self.rng.below(self.nann + 1)) } else { self.pick_ann() }; format!("st rmann {}", a) }
             4 | 5 => {
                 let strict = self.rng.below(2);
                 if !self.data_ids.is_empty() && self.rng.chance(50) { let (s, d) = self.rng.pick(&self.data_ids).clone(); format!("st rmdata {} {} {}", s, d, strict) }
                 else { format!("st rmdata {} #{} {}", self.pick_set(), self.rng.below(4), strict) }
             }
             6 | 7 => format!("st rmkey {} k{} {}", self.pick_set(), self.rng.below(3), self.rng.below(2)),
-            8 => format!("st rmres {}", self.pick_res()),
-            _ => format!("st rmset {}", self.pick_set()),
+            8 => if self.rng.chance(20) { format!("st rmres !R{}", self.rng.below(3)) } else { format!("st rmres {}", self.pick_res()) },
+            _ => if self.rng.chance(20) { format!("st rmset !S{}", self.rng.below(3)) } else { format!("st rmset {}", self.pick_set()) },
         }
     }
 }
